@@ -146,7 +146,8 @@ def witness_and_replay(prop, unit, obname, repo, outdir):
     rec['solver_output'] = solver_out
   with open(path, 'w') as f:
     json.dump(rec, f, indent=1, default=str)
-  if rec.get('witness') is not None:
+  if target is not None:
+    # replay functions that do not depend on the model's values (fixed input families) run even without a witness
     try:
       p = subprocess.run([VENV_PY, os.path.join(ROOT, 'pyvc', 'replay.py'), path],
                          stdout=subprocess.PIPE, stderr=subprocess.STDOUT, timeout=120,
